@@ -1,7 +1,264 @@
 package p16
 
-import "verifharness/core"
+import (
+	"strconv"
+	"strings"
 
-func execKeys(op string, a []string) (string, bool) { return "", false }
+	"github.com/btcsuite/btcd/address/v2"
+	"github.com/btcsuite/btcd/btcec/v2"
+	"github.com/btcsuite/btcd/btcutil/v2"
+	"github.com/btcsuite/btcd/btcutil/v2/hdkeychain"
+	"github.com/btcsuite/btcd/chaincfg/v2"
+	"verifharness/core"
+)
 
-func genKeys(g *core.Gen) {}
+func showXKey(k *hdkeychain.ExtendedKey) string {
+	var bits strings.Builder
+	for _, n := range nets() {
+		if k.IsForNet(n.p) {
+			bits.WriteByte('1')
+		} else {
+			bits.WriteByte('0')
+		}
+	}
+	p := "0"
+	if k.IsPrivate() {
+		p = "1"
+	}
+	return k.String() + " " + p + " " + strconv.Itoa(int(k.Depth())) + " " +
+		strconv.FormatUint(uint64(k.ChildIndex()), 10) + " " + bits.String()
+}
+
+func neuterStr(k *hdkeychain.ExtendedKey) (*hdkeychain.ExtendedKey, string) {
+	n, err := k.Neuter()
+	if err != nil {
+		return nil, "err"
+	}
+	return n, n.String()
+}
+
+func execKeys(op string, a []string) (string, bool) {
+	switch op {
+	case "wife":
+		priv, _ := btcec.PrivKeyFromBytes(unhx(a[2]))
+		w, err := btcutil.NewWIF(priv, &chaincfg.Params{PrivateKeyID: unhx(a[0])[0]}, a[1] == "1")
+		if err != nil {
+			return "err", true
+		}
+		return w.String(), true
+	case "wifd":
+		w, err := btcutil.DecodeWIF(string(unhx(a[0])))
+		if err != nil {
+			switch err {
+			case btcutil.ErrMalformedPrivateKey:
+				return "err:malformed", true
+			case address.ErrChecksumMismatch:
+				return "err:checksum", true
+			}
+			return "err:other", true
+		}
+		var bits strings.Builder
+		var id byte
+		found := false
+		for _, n := range nets() {
+			if w.IsForNet(n.p) {
+				bits.WriteByte('1')
+			} else {
+				bits.WriteByte('0')
+			}
+		}
+		// the net id byte is not exported: recover it through IsForNet over all 256 values
+		for v := 0; v < 256; v++ {
+			if w.IsForNet(&chaincfg.Params{PrivateKeyID: byte(v)}) {
+				id, found = byte(v), true
+			}
+		}
+		if !found {
+			return "err:noid", true
+		}
+		c := "0"
+		if w.CompressPubKey {
+			c = "1"
+		}
+		return "ok " + hx([]byte{id}) + " " + c + " " + hx(w.PrivKey.Serialize()) + " " + bits.String() + " " + w.String(), true
+	case "xkd":
+		k, err := hdkeychain.NewKeyFromString(string(unhx(a[0])))
+		if err != nil {
+			switch err {
+			case hdkeychain.ErrInvalidKeyLen:
+				return "err:keylen", true
+			case hdkeychain.ErrBadChecksum:
+				return "err:checksum", true
+			case hdkeychain.ErrUnusableSeed:
+				return "err:unusable", true
+			}
+			return "err:pubkey", true
+		}
+		return "ok " + showXKey(k), true
+	case "xke":
+		depth, _ := strconv.Atoi(a[1])
+		cn, _ := strconv.ParseUint(a[3], 10, 32)
+		k := hdkeychain.NewExtendedKey(unhx(a[0]), unhx(a[6]), unhx(a[4]), unhx(a[2]), uint8(depth), uint32(cn), a[5] == "1")
+		return k.String(), true
+	case "drv":
+		m, err := hdkeychain.NewMaster(unhx(a[1]), netOf(a[0]))
+		if err != nil {
+			return "err:seed", true
+		}
+		pub, ps := neuterStr(m)
+		out := []string{m.String() + "|" + ps}
+		k := m
+		if a[2] != "-" {
+			for _, t := range strings.Split(a[2], ",") {
+				i64, _ := strconv.ParseUint(t, 10, 32)
+				i := uint32(i64)
+				c, err := k.Derive(i)
+				if err != nil {
+					out = append(out, "err")
+					break
+				}
+				nc, ncs := neuterStr(c)
+				pstr := "-"
+				if pub != nil {
+					pc, err := pub.Derive(i)
+					switch {
+					case err == nil:
+						pub, pstr = pc, pc.String()
+					case err == hdkeychain.ErrDeriveHardFromPublic:
+						pub, pstr = nc, "err:hard"
+					default:
+						pub, pstr = nil, "err"
+					}
+				}
+				out = append(out, c.String()+"|"+ncs+"|"+pstr)
+				k = c
+			}
+		}
+		return strings.Join(out, " "), true
+	}
+	return execTap(op, a)
+}
+
+func validScalarBytes(r *core.Rand) []byte {
+	b := r.Bytes(32)
+	b[0] &= 0x7f
+	if r.Chance(1, 8) { // leading zero bytes
+		for i := 0; i < 1+r.Intn(3); i++ {
+			b[i] = 0
+		}
+	}
+	b[31] |= 1
+	return b
+}
+
+var secpNBytes = []byte{0xFF, 0xFF, 0xFF, 0xFF, 0xFF, 0xFF, 0xFF, 0xFF, 0xFF, 0xFF, 0xFF, 0xFF, 0xFF, 0xFF, 0xFF, 0xFE,
+	0xBA, 0xAE, 0xDC, 0xE6, 0xAF, 0x48, 0xA0, 0x3B, 0xBF, 0xD2, 0x5E, 0x8C, 0xD0, 0x36, 0x41, 0x41}
+
+func genKeys(g *core.Gen) {
+	r := g.R
+	ns := nets()
+	// WIF
+	for k := 0; k < g.N(300, 4000); k++ {
+		key := validScalarBytes(r)
+		id := byte(r.Intn(256))
+		if r.Chance(2, 3) {
+			id = ns[r.Intn(len(ns))].p.PrivateKeyID
+		}
+		c := strconv.Itoa(r.Intn(2))
+		g.Case("wife", true, "C16 wife "+hx([]byte{id})+" "+c+" "+hx(key))
+		priv, _ := btcec.PrivKeyFromBytes(key)
+		w, _ := btcutil.NewWIF(priv, &chaincfg.Params{PrivateKeyID: id}, c == "1")
+		s := []byte(w.String())
+		g.Case("wifd-valid", true, "C16 wifd "+hx(s))
+		g.Case("wifd-mut", true, "C16 wifd "+hx(mutate(r, s, 1+r.Intn(4), b58alpha)))
+	}
+	// WIF with raw payloads: zero key, key = n, n-1, n+1, wrong compress byte, wrong lengths (checksum valid)
+	mk := func(body []byte) []byte { return []byte(base58CheckRaw(body)) }
+	nm1 := append([]byte{}, secpNBytes...)
+	nm1[31]--
+	np1 := append([]byte{}, secpNBytes...)
+	np1[31]++
+	for _, key := range [][]byte{make([]byte, 32), secpNBytes, nm1, np1, {31: 1}} {
+		for _, tail := range [][]byte{nil, {1}, {0}, {2}, {1, 1}} {
+			body := append(append([]byte{0x80}, key...), tail...)
+			g.Case("wifd-edge", true, "C16 wifd "+hx(mk(body)))
+		}
+	}
+	for _, l := range []int{0, 1, 31, 32, 33, 34, 35, 36, 40} {
+		g.Case("wifd-len", true, "C16 wifd "+hx(mk(r.Bytes(l))))
+	}
+	// extended keys: encode with arbitrary fields; decode valid / mutated / edge keys
+	for k := 0; k < g.N(200, 3000); k++ {
+		n := ns[r.Intn(len(ns))]
+		priv := r.Bool()
+		ver := n.p.HDPublicKeyID[:]
+		var key []byte
+		if priv {
+			ver = n.p.HDPrivateKeyID[:]
+			key = validScalarBytes(r)
+			if r.Chance(1, 6) { // stored without leading zeros, as Derive does
+				key[0] = 0
+				key = key[1:]
+			}
+		} else {
+			key = pubKeys(r)[0]
+		}
+		if r.Chance(1, 8) {
+			ver = r.Bytes(4)
+		}
+		depth := r.Intn(256)
+		cn := r.U32()
+		if r.Chance(1, 4) {
+			cn = uint32(r.Pick(0, 1, 0x7fffffff, 0x80000000, 0xffffffff))
+		}
+		p := "0"
+		if priv {
+			p = "1"
+		}
+		line := "C16 xke " + hx(ver) + " " + strconv.Itoa(depth) + " " + hx(r.Bytes(4)) + " " +
+			strconv.FormatUint(uint64(cn), 10) + " " + hx(r.Bytes(32)) + " " + p + " " + hx(key)
+		g.Case("xke", true, line)
+		ek := hdkeychain.NewExtendedKey(ver, key, r.Bytes(32), r.Bytes(4), uint8(depth), cn, priv)
+		s := []byte(ek.String())
+		g.Case("xkd-valid", true, "C16 xkd "+hx(s))
+		g.Case("xkd-mut", true, "C16 xkd "+hx(mutate(r, s, 1+r.Intn(4), b58alpha)))
+	}
+	for _, kd := range [][]byte{append([]byte{0}, make([]byte, 32)...), append([]byte{0}, secpNBytes...), append([]byte{0}, nm1...),
+		append([]byte{4}, make([]byte, 32)...), append([]byte{2}, make([]byte, 32)...), append([]byte{1}, r.Bytes(32)...),
+		append([]byte{3}, secpNBytes...)} {
+		body := append(append(append([]byte{0x04, 0x88, 0xad, 0xe4, 3}, r.Bytes(4)...), r.Bytes(4+32)...), kd...)
+		g.Case("xkd-edge", true, "C16 xkd "+hx(mk(body)))
+	}
+	for _, l := range []int{0, 77, 78, 79, 81, 82} {
+		g.Case("xkd-len", true, "C16 xkd "+hx(mk(r.Bytes(l))))
+	}
+	// derivation walks: seeds of every legal / illegal length, paths with hardened mix
+	for k := 0; k < g.N(40, 600); k++ {
+		n := ns[r.Intn(len(ns))]
+		sl := 16 + r.Intn(49)
+		if r.Chance(1, 10) {
+			sl = int(r.Pick(0, 15, 65, 80))
+		}
+		seed := r.Bytes(sl)
+		depth := r.Intn(6)
+		var path []string
+		for d := 0; d < depth; d++ {
+			i := r.U32() & 0x7fffffff
+			if r.Chance(1, 3) {
+				i = uint32(r.Pick(0, 1, 2, 0x7fffffff))
+			}
+			if r.Chance(1, 3) {
+				i |= 0x80000000
+			}
+			path = append(path, strconv.FormatUint(uint64(i), 10))
+		}
+		ps := "-"
+		if len(path) > 0 {
+			ps = strings.Join(path, ",")
+		}
+		g.Case("drv", depth > 0, "C16 drv "+n.name+" "+hx(seed)+" "+ps)
+	}
+	g.Case("drv-bip32-tv1", true, "C16 drv mainnet 000102030405060708090a0b0c0d0e0f 2147483648,1,2147483650,2,1000000000")
+	g.Case("drv-bip32-tv3", true, "C16 drv mainnet 4b381541583be4423346c643850da4b320e46a87ae3d2a4e6da11eba819cd4acba45d239319ac14f863b8d5ab5a0d0c64d2e8a1e7d1457df2e5a3c51c73235be 2147483648")
+	genTap(g)
+}
